@@ -41,10 +41,18 @@ def main() -> int:
     ck = Check(a.pid, a.tier, seed, level=getattr(mod, "LEVEL", "proof"))
     try:
         mod.run(ck)
-    except Exception:
+    except Exception as e:  # noqa: BLE001
+        tb = traceback.format_exc()
         traceback.print_exc()
-        print(f"INFRASTRUCTURE-ERROR property={a.pid}", file=sys.stderr)
-        return 2
+        if ck.lean is None:
+            # nothing of the implementation was exercised yet: the machinery itself is broken
+            print(f"INFRASTRUCTURE-ERROR property={a.pid}", file=sys.stderr)
+            return 2
+        # The Lean stage ran and the streams were being driven against /repo: an exception here means that the
+        # implementation (or a value it returned) no longer fits the correspondence - on the unchanged tree this does
+        # not happen.  It is reported as a diverging correspondence (with whatever concrete failing inputs were found
+        # before), never silently as an infrastructure problem.
+        ck.mismatch("harness", f"the check could not be completed: {type(e).__name__}: {str(e)[:300]}", {"traceback": tb[-3000:]})
     return ck.finish()
 
 
